@@ -545,8 +545,8 @@ def run_cli_sample(job):
             res = L.run_cli(["list", "-D"] + (["--topological"] if mode[0] else []) + (["--checkCycles"] if mode[1] else []) + list(r))
             recs = [x for name, x in res["records"] if name == "getDependentProducts"]
         else:
-            n, v = arg
-            res = L.run_cli(["uses", "--optional", n] + ([v] if v else []))
+            (n, v), show_opt, depth = arg
+            res = L.run_cli(["uses"] + (["--optional"] if show_opt else []) + (["--depth", str(depth)] if depth else []) + [n] + ([v] if v else []))
             recs = [x for name, x in res["records"] if name == "uses" and x[1] != "UsesObject"]
         if recs:
             kind_, val = recs[-1]
@@ -557,9 +557,12 @@ def run_cli_sample(job):
             # what `eups uses --optional` printed after the header: product, version[, version needed][Optional]
             printed = []
             for line in res["stdout"].splitlines()[1:]:
-                parts = line.split()
+                line = line.rstrip()
+                is_opt = line.endswith("Optional")
+                parts = (line[:-len("Optional")] if is_opt else line).split()
                 if len(parts) >= 2:
-                    printed.append([parts[0], parts[1], line.rstrip().endswith("Optional")])
+                    # user, its version, the version needed (a column only when the query names no version), marker
+                    printed.append([parts[0], parts[1], parts[2] if len(parts) > 2 else None, is_opt])
         if kind == "list" and not isinstance(val, str):
             # what `eups list -D` printed: lines "<indent><name>   <version>"
             printed = []
@@ -683,8 +686,8 @@ def evaluate(ctx, graphs, ncli=2, corpus=False):
     L.preimport()
     jobs = [(g, roots_of(g), queries_of(g)) for g in graphs]
     impl = parallel_map(in_child_job, jobs, workers=4)
-    answers = ctx.lean.ask_many([model_request(*j) for j in jobs])
     clijobs = []
+    prints = {}                 # graph index -> [[query index, showOptional, depth]] for the model
     for gi, (g, roots, queries) in enumerate(jobs):
         for _ in range(ncli):
             if ctx.rng.random() < 0.6:
@@ -692,8 +695,19 @@ def evaluate(ctx, graphs, ncli=2, corpus=False):
                 mi = ctx.rng.randrange(3)
                 clijobs.append((gi, "list", (ri, mi)))
             else:
-                clijobs.append((gi, "uses", ctx.rng.randrange(len(queries))))
-    cliout = parallel_map(in_child_cli, [(jobs[gi][0], kind, ((jobs[gi][1][a[0]], MODES[a[1]]) if kind == "list" else jobs[gi][2][a]))
+                # `eups uses [--optional] [--depth N] product [version]`
+                a = [ctx.rng.randrange(len(queries)), ctx.rng.random() < 0.5, ctx.rng.choice([None, None, 1, 2])]
+                clijobs.append((gi, "uses", (a[0], a[1], a[2], len(prints.setdefault(gi, [])))))
+                prints[gi].append([a[0], a[1], a[2] if a[2] is not None else 9999])
+    reqs = []
+    for gi, j in enumerate(jobs):
+        rq = model_request(*j)
+        if gi in prints:
+            rq["print"] = prints[gi]
+        reqs.append(rq)
+    answers = ctx.lean.ask_many(reqs)
+    cliout = parallel_map(in_child_cli, [(jobs[gi][0], kind, ((jobs[gi][1][a[0]], MODES[a[1]]) if kind == "list"
+                                                              else (jobs[gi][2][a[0]], a[1], a[2])))
                                          for gi, kind, a in clijobs], workers=4)
     for (g, roots, queries), io_, ans in zip(jobs, impl, answers):
         if "bad-op" in ans:
@@ -828,10 +842,21 @@ def evaluate(ctx, graphs, ncli=2, corpus=False):
         out = res["val"]
         ctx.hist("cli:%s" % kind)
         if res["printed"] is not None and kind == "uses":
-            want = [[u[0], u[1], u[3]] for u in out]
+            q, show_opt = queries[a[0]], a[1]
+            ctx.hist("cli:uses%s%s" % (" --optional" if show_opt else "", " --depth" if a[2] else ""))
+            # oracle (ii): a row for every user the command computed that is required (with --optional: for every user)
+            want = [[u[0], u[1], (str(u[2]) if q[1] is None else None), u[3]] for u in out if show_opt or not u[3]]
+            inp = {"graph": g, "query": q, "via": "command line", "optional": show_opt, "depth": a[2]}
+            mp = answers[gi].get("printed")
+            mrows = None
+            if mp is not None and mp[a[3]] is not None:
+                mrows = [[r[0], r[1], (str(r[2]) if q[1] is None else None), r[3]] for r in mp[a[3]]]
+                if res["printed"] != mrows:
+                    ctx.disagree("cli_uses_printed", inp, res["printed"], mrows)
             if res["printed"] != want:
-                ctx.fail("cli_prints_users", {"graph": g, "query": queries[a], "via": "command line"},
-                         res["printed"], want, note="eups uses printed something else than the users it computed")
+                ctx.fail("cli_prints_users", inp, res["printed"], mrows, note="eups uses printed something else than the users it computed: %r" % (want,))
+            if any(u[3] for u in out):
+                ctx.hist("cli:uses_has_optional_user%s" % ("_shown" if show_opt else "_hidden"))
         elif res["printed"] is not None:
             want = expected_print(roots[a[0]], MODES[a[1]], out)
             if res["printed"] != want:
@@ -842,9 +867,9 @@ def evaluate(ctx, graphs, ncli=2, corpus=False):
             inp = {"graph": g, "root": roots[a[0]], "mode": MODES[a[1]], "via": "command line"}
             mo = model_lists(answers[gi])[a[0]][a[1]]
         else:
-            api = impl[gi]["users"][a] if impl[gi]["uses"] == "ok" else impl[gi]["uses"]
-            inp = {"graph": g, "query": queries[a], "via": "command line"}
-            mo = answers[gi]["users"][a] if answers[gi].get("uses") == "ok" else answers[gi].get("uses")
+            api = impl[gi]["users"][a[0]] if impl[gi]["uses"] == "ok" else impl[gi]["uses"]
+            inp = {"graph": g, "query": queries[a[0]], "via": "command line", "optional": a[1], "depth": a[2]}
+            mo = answers[gi]["users"][a[0]] if answers[gi].get("uses") == "ok" else answers[gi].get("uses")
         ctx.case(key=None, nontrivial=False)
         if out != api:
             ctx.disagree("cli_vs_api", inp, out, api, note="the command line and the API disagree")
@@ -1038,10 +1063,12 @@ def replay(ctx, rp):
         roots, queries = [], [inp["query"]] if inp.get("query") else queries_of(g)
     if inp.get("via") == "command line":
         kind = "list" if "root" in inp else "uses"
-        res = in_child_cli((g, kind, (inp["root"], inp["mode"]) if kind == "list" else inp["query"]))
+        res = in_child_cli((g, kind, (inp["root"], inp["mode"]) if kind == "list"
+                            else (inp["query"], inp.get("optional", True), inp.get("depth"))))
         out = res["val"]
         if res["printed"] is not None and kind == "uses":
-            if res["printed"] != [[u[0], u[1], u[3]] for u in out]:
+            q, so = inp["query"], inp.get("optional", True)
+            if res["printed"] != [[u[0], u[1], (str(u[2]) if q[1] is None else None), u[3]] for u in out if so or not u[3]]:
                 cli_fails.append({"clause": "cli_prints_users", "class": None, "detail": "printed %s" % (res["printed"],)})
         elif res["printed"] is not None and res["printed"] != expected_print(inp["root"], inp["mode"], out):
             cli_fails.append({"clause": "cli_prints_listing", "class": None,
